@@ -163,6 +163,15 @@ impl MultiProgress {
     }
 
     fn internalize(&self, location: InsertLocation, pb: ProgressBar) -> ProgressBar {
+        // A progress bar that is already a member keeps its place
+        let is_member = match pb.state().draw_target.remote() {
+            Some((state, _)) => Arc::ptr_eq(&self.state, state),
+            None => false,
+        };
+        if is_member {
+            return pb;
+        }
+
         let mut state = self.state.write().unwrap();
         let idx = state.insert(location);
         drop(state);
